@@ -2,8 +2,9 @@
 
 proof:   Props/C21.lean: the generated branch classification of from_ppc is a partition (phase shifters are transformers);
          generated line / impedance formulas of from_ppc composed with the generated per-unit formulas of build_branch are the
-         identity on series and shunt values; _ppc2mpc rewrites only the ratio column.
-tie:     translator (classification, formulas, mpc columns; per-unit formulas shared with C23).
+         identity on series and shunt values; the generated vk / vkr of from_ppc's transformers fed to the generated
+         _calc_r_x_from_dataframe give back r and x (sign included); _ppc2mpc rewrites only the ratio column.
+tie:     translator (classification, formulas, mpc columns; per-unit formulas shared with C23 and C02).
 oracle:  generated nets within the documented scope (pi model, no asymmetric data) -> to_ppc -> from_ppc, and
          to_mpc (file) -> from_mpc; power flow on both: bus voltages, slack power, total losses.
 """
@@ -62,6 +63,8 @@ def run(ctx):
                        "calculate_voltage_angles; non-trivial = original and converted net converged")
     ctx.regenerate("C23", lambda: tr23.render(tr23.extract(core.REPO)))
     ctx.regenerate("C21", lambda: tr.render(tr.extract(core.REPO)))
+    from translate import c02 as tr02
+    ctx.regenerate("C02", lambda: tr02.render(tr02.extract(core.REPO)))
     ctx.prove()
     rng = ctx.rng
     tmp = tempfile.mkdtemp(prefix="c21_")
